@@ -1,9 +1,11 @@
 """Property -> harness modules.  A module may host conditions of several properties
 (the registry is filtered by property id)."""
 PROPS = {
+    'C01': ['mpgverif.harness.c01_stage1'],
+    'C02': ['mpgverif.harness.c01_stage1'],
     'C15': ['mpgverif.harness.c15_fusion'],
     'C05': ['mpgverif.harness.kernel_vpd'],
-    'C09': ['mpgverif.harness.kernel_vpd'],
+    'C09': ['mpgverif.harness.kernel_vpd', 'mpgverif.harness.c09_sect'],
     'C08': ['mpgverif.harness.c08_novel_orf'],
     'C18': ['mpgverif.harness.c18_bookkeeping'],
     'C20': ['mpgverif.harness.c20_decoy'],
